@@ -387,7 +387,8 @@ PLUGS = {
                 with_oracles(gen.scenarios_shapes(seed, sizes(tier, 500, 8000), op='try_collect'), ['c03']) +
                 with_oracles(gen.scenarios_tuplelayout(seed, sizes(tier, 500, 8000), op='try_collect'), ['c03']) +
                 with_oracles(gen.scenarios_tagged(seed + 4, sizes(tier, 500, 8000)), ['c03'], op='try_collect') +
-                with_oracles(gen.scenarios_inherited_hook(seed, sizes(tier, 300, 4000)), ['c03']),
+                with_oracles(gen.scenarios_inherited_hook(seed, sizes(tier, 300, 4000)), ['c03']) +
+                with_oracles(gen.scenarios_boost(seed, sizes(tier, 150, 2000), op='try_collect'), ['c03']),
                 project=proj_try_collect, oracles=['c03'], disagreement_is_failure=False),
     'C04': dict(streams=lambda seed, tier: conv_stream(seed, sizes(tier, 1500, 30000), 'from_data', ['c04']) +
                 [dict(s, oracles=['c04']) for s in matrix_stream(seed)] +
@@ -412,10 +413,12 @@ PLUGS = {
     'C07': dict(streams=lambda seed, tier: conv_stream(seed, sizes(tier, 1500, 30000), 'try_collect', ['c07']) +
                 with_oracles(gen.scenarios_special_unions(seed, sizes(tier, 400, 5000), op='try_collect'), ['c07']) +
                 with_oracles(gen.scenarios_shapes(seed, sizes(tier, 800, 12000), op='try_collect'), ['c07']) +
-                with_oracles(gen.scenarios_tuplelayout(seed, sizes(tier, 500, 8000), op='try_collect'), ['c07']),
+                with_oracles(gen.scenarios_tuplelayout(seed, sizes(tier, 500, 8000), op='try_collect'), ['c07']) +
+                with_oracles(gen.scenarios_boost(seed, sizes(tier, 150, 2000), op='try_collect'), ['c07']),
                 project=proj_full, oracles=['c07'], disagreement_is_failure=True, decided_by=['c07']),
     'C08': dict(streams=lambda seed, tier: conv_stream(seed, sizes(tier, 1500, 30000), 'render', ['c08']) +
-                with_oracles(gen.scenarios_shapes(seed, sizes(tier, 1000, 15000), op='render'), ['c08']),
+                with_oracles(gen.scenarios_shapes(seed, sizes(tier, 1000, 15000), op='render'), ['c08']) +
+                with_oracles(gen.scenarios_boost(seed, sizes(tier, 200, 2500), op='render'), ['c08']),
                 project=proj_full, oracles=['c08'], disagreement_is_failure=True),
     'C09': dict(streams=lambda seed, tier: conv_stream(seed, sizes(tier, 700, 10000), 'from_data', []) +
                 conv_stream(seed + 1, sizes(tier, 400, 10000), 'try_collect', []) +
@@ -449,7 +452,8 @@ PLUGS = {
     'C15': dict(streams=lambda seed, tier: gen.scenarios_process(seed, sizes(tier, 800, 12000), generic_share=0.0) +
                 [s for s in conv_stream(seed, sizes(tier, 3000, 40000), 'from_data', []) if '"cls"' in json.dumps(s['ty'])] +
                 [s for s in conv_stream(seed + 5, sizes(tier, 1500, 20000), 'roundtrip', []) if '"cls"' in json.dumps(s['ty'])] +
-                gen.scenarios_tuplelayout(seed, sizes(tier, 600, 9000)) + gen.scenarios_shapes(seed, sizes(tier, 400, 6000), op='from_data'),
+                gen.scenarios_tuplelayout(seed, sizes(tier, 600, 9000)) + gen.scenarios_shapes(seed, sizes(tier, 400, 6000), op='from_data') +
+                gen.scenarios_boost(seed, sizes(tier, 200, 2500), op='from_data'),
                 project=proj_full, oracles=[], disagreement_is_failure=True),
     'C16': dict(streams=lambda seed, tier: gen.scenarios_valuesem(seed, sizes(tier, 2000, 30000)) + gen.scenarios_hashtable(seed) +
                 gen.scenarios_hashmut(seed, sizes(tier, 60, 600)) +
